@@ -343,111 +343,90 @@ func c03Surrogates(c *Ctx, g *load.G) {
 		r.Fatal("anchor main.validateUnicodeEscape not found")
 		return
 	}
-	info := g.Pkg("").TypesInfo
-	found := false
+	// what the function accepts, computed from its normalised paths: the code point the hex digits denote is compared
+	// with constants and/or handed to a library function whose verdict is known; the accepted set must be exactly the
+	// valid code points, U+0000..U+D7FF and U+E000..U+10FFFF
+	univ := ivl{0, 1<<32 - 1}
+	valid := ivset{{0, 0xD7FF}, {0xE000, 0x10FFFF}}
 	var bad []string
-	ast.Inspect(fd.Body, func(n ast.Node) bool {
-		is, ok := n.(*ast.IfStmt)
-		if !ok {
-			return true
+	accepted, rejected := ivset{}, ivset{}
+	paths := c.pkgNorm("").normPaths(fd)
+	for _, p := range paths {
+		// the decoded value: the first result of the library call that reads the digits
+		v := ""
+		for _, e := range p {
+			if e.Kind == "call" && (strings.HasPrefix(e.Text, "strconv.UnquoteChar(") || strings.HasPrefix(e.Text, "strconv.ParseUint(") || strings.HasPrefix(e.Text, "strconv.ParseInt(")) {
+				v = "res0(" + e.Text + ")"
+			}
 		}
-		lo, hi := int64(-1), int64(-1)
-		var conj func(e ast.Expr) bool
-		conj = func(e ast.Expr) bool {
-			be, ok := e.(*ast.BinaryExpr)
-			if !ok {
-				if pe, ok := e.(*ast.ParenExpr); ok {
-					return conj(pe.X)
-				}
-				return false
-			}
-			if be.Op == token.LAND {
-				return conj(be.X) && conj(be.Y)
-			}
-			cv := func(e ast.Expr) (int64, bool) {
-				if tv, ok := info.Types[e]; ok && tv.Value != nil {
-					if v, ok := constant.Int64Val(constant.ToInt(tv.Value)); ok {
-						return v, true
+		if v == "" {
+			bad = append(bad, "a path does not decode the escape with strconv.UnquoteChar / ParseUint")
+			continue
+		}
+		set := ivset{univ}
+		undecided := ""
+		for _, f := range p.facts() {
+			fs := ivset{}
+			known := true
+			for _, d := range splitTop(f, "||") {
+				d = strings.TrimSuffix(strings.TrimPrefix(d, "("), ")")
+				ds := ivset{univ}
+				for _, a := range splitTop(d, "&&") {
+					a = strings.ReplaceAll(strings.ReplaceAll(a, "rune("+v+")", v), "int64("+v+")", v)
+					switch {
+					case strings.HasPrefix(a, "res3(strconv.UnquoteChar(") && strings.HasSuffix(a, "==nil"):
+						ds = ds.intersect(valid) // strconv.UnquoteChar accepts exactly the valid runes
+					case strings.HasPrefix(a, "res3(strconv.UnquoteChar(") && strings.HasSuffix(a, "!=nil"):
+						ds = ds.intersect(valid.complement(univ))
+					case strings.HasPrefix(a, "res1(strconv.Parse") && strings.HasSuffix(a, "==nil"):
+						// up to eight hex digits always fit 32 bits
+					case strings.HasPrefix(a, "res1(strconv.Parse") && strings.HasSuffix(a, "!=nil"):
+						ds = ivset{}
+					case a == "utf8.ValidRune("+v+")":
+						ds = ds.intersect(valid)
+					case a == "!utf8.ValidRune("+v+")":
+						ds = ds.intersect(valid.complement(univ))
+					default:
+						as, ok := atomSet(a, v, univ)
+						if !ok {
+							if strings.Contains(a, v) {
+								known = false
+								undecided = a
+							}
+							continue
+						}
+						ds = ds.intersect(as)
 					}
 				}
-				return 0, false
+				fs = fs.union(ds)
 			}
-			op := be.Op
-			k, isL := cv(be.X)
-			if !isL {
-				var isR bool
-				k, isR = cv(be.Y)
-				if !isR {
-					return false
-				}
-				// var op const  →  mirror to const op' var
-				switch op {
-				case token.LSS:
-					op = token.GTR
-				case token.LEQ:
-					op = token.GEQ
-				case token.GTR:
-					op = token.LSS
-				case token.GEQ:
-					op = token.LEQ
-				}
-			}
-			// now: k op var
-			switch op {
-			case token.LEQ:
-				lo = k
-			case token.LSS:
-				lo = k + 1
-			case token.GEQ:
-				hi = k
-			case token.GTR:
-				hi = k - 1
-			default:
-				return false
-			}
-			return true
-		}
-		// the interval test may be one disjunct of the rejecting condition (err != nil || lo <= r && r <= hi)
-		okIv := false
-		var disj func(e ast.Expr)
-		disj = func(e ast.Expr) {
-			e = stripParens(e)
-			if be, ok := e.(*ast.BinaryExpr); ok && be.Op == token.LOR {
-				disj(be.X)
-				disj(be.Y)
-				return
-			}
-			l0, h0 := lo, hi
-			lo, hi = -1, -1
-			if conj(e) && lo >= 0 && hi >= 0 {
-				okIv = true
-				return
-			}
-			lo, hi = l0, h0
-		}
-		disj(is.Cond)
-		if !okIv {
-			return true
-		}
-		found = true
-		if lo != 0xD800 || hi != 0xDFFF {
-			bad = append(bad, fmt.Sprintf("%s: rejects the interval [U+%04X, U+%04X], expected exactly the surrogate halves [U+D800, U+DFFF]", g.Where(is.Pos()), lo, hi))
-		}
-		rejects := false
-		for _, st := range is.Body.List {
-			if rs, ok := st.(*ast.ReturnStmt); ok && len(rs.Results) == 2 && nospace(rs.Results[1]) != "nil" {
-				rejects = true
+			if known {
+				set = set.intersect(fs)
 			}
 		}
-		if !rejects {
-			bad = append(bad, g.Where(is.Pos())+": the surrogate test does not return an error")
+		if undecided != "" {
+			bad = append(bad, "the verdict depends on `"+abbreviate(undecided)+"`, which is not a comparison of the code point with a constant")
+			continue
 		}
-		return true
-	})
-	if !found {
-		bad = append(bad, "no interval test on the decoded code point")
+		ret := splitTop(lastReturn(p), ",")
+		if len(ret) == 2 && ret[1] == "nil" {
+			accepted = accepted.union(set)
+		} else {
+			rejected = rejected.union(set)
+		}
 	}
-	r.Check(len(bad) == 0, "C03-c", "G.main.validateUnicodeEscape:rejects-surrogate-halves", "", g.Where(fd.Pos()), "rejects exactly U+D800..U+DFFF", strings.Join(bad, "; "))
+	if len(paths) == 0 {
+		bad = append(bad, "no paths")
+	}
+	if len(bad) == 0 {
+		if !accepted.equal(valid) {
+			bad = append(bad, "accepts "+accepted.String()+", expected exactly the valid code points "+valid.String()+" (the surrogate halves U+D800..U+DFFF and everything above U+10FFFF are rejected, nothing else)")
+		}
+		if both := accepted.intersect(rejected); len(both) > 0 {
+			bad = append(bad, "the verdict for "+both.String()+" is not determined by the code point")
+		}
+	}
+	r.Check(len(bad) == 0, "C03-c", "G.main.validateUnicodeEscape:rejects-surrogate-halves", "", g.Where(fd.Pos()), "accepts exactly U+0000..U+D7FF and U+E000..U+10FFFF", strings.Join(uniq(bad), "; "))
 }
 
 // c03Operators checks the operator -> constructor mapping of the prefix / suffix / semantic-predicate actions.
